@@ -55,7 +55,7 @@ def mc_runs(out, runs):
 
 
 def validate(out, family, module, cfg, trace, zv, replay_args=(), env=None, deque=False, timeout=1500,
-             max_confirm=25, workers=None):
+             max_confirm=25, workers=None, confirm=True):
     """Validate recorded cases; confirm rejections by re-execution; fill out."""
     prop = out.prop
     cases = vlib.load_cases(trace)
@@ -79,7 +79,11 @@ def validate(out, family, module, cfg, trace, zv, replay_args=(), env=None, dequ
             out.samples.append(cases[i])
     # confirm rejections on the real code before reporting
     confirmed = []
-    if bad:
+    if bad and not confirm:
+        # the recorded case is itself the evidence (e.g. two recorded runs of one program differ)
+        for i in sorted(bad)[:max_confirm]:
+            confirmed.append((i, vlib.save_replay(prop, cases[i], {"family": family, "verdict": list(v[i])}), v[i][1]))
+    elif bad:
         todo = sorted(bad)[:max_confirm]
         rp = os.path.join(vlib.scratch(), "replay-%s.ndjson" % family)
         paths = {}
